@@ -569,6 +569,10 @@ def bounds(chk: Check):
                            f"the zero-fill length depends only on image fields: {S.show(z)[:120]}", found=S.show(z)[:160], nontrivial=False)
     if n_inflate == 0:
         chk.note("no inflate call found")
+    # bounds kept on the object must come from the header the reader finally works with
+    from ..rulelib import check_superseded
+
+    check_superseded(chk, ["disk/vmdk.py", "disk/qcow2.py", "disk/hdd.py", "disk/vhdx.py", "disk/vhd.py", "disk/vdi.py"], kind="K-BOUND")
 
 
 def _unit_bound(chk: Check, ctx, ml):
@@ -579,5 +583,12 @@ def _unit_bound(chk: Check, ctx, ml):
         other = ml[3] if ml[2] == S.C(512) else ml[2]
         fields = [x for x in S.walk(other) if isinstance(x, tuple) and x and x[0] == "f"]
         if fields and all(f[2] in (20, 16, 24) for f in fields):
+            # the grain size must be the one of the header the reader finally works with (the footer copy replaces the
+            # primary header of a stream-optimised extent), not of an earlier parse
+            if ctx.ci is not None:
+                hdr = chk.R.self_attr(ctx.ci.key, "header")
+                want = chk.R.attr(hdr, "grain_size", ctx, 0)
+                if other != want:
+                    return None
             return "grain size * 512"
     return None
